@@ -327,6 +327,7 @@ def build_case(r, cid, spec, A, B, tier):
         L.append("evalb %s x:%s" % (s, kv("", P)[1:]))
         L.append("evalf %s x:%s" % (s, kv("", P)[1:]))
         L.append("hbasis %s x:%s" % (s, kv("", P)[1:]))
+        L.append("hsparsenz %s x:%s" % (s, kv("", P)[1:]))
         L.append("diff %s x:%s" % (s, kv("", P[:d])[1:]))
         L.append("iw %s x:%s" % (s, kv("", P[:d])[1:]))
         L.append("dw %s x:%s" % (s, kv("", P[:d])[1:]))
@@ -659,6 +660,16 @@ def check_linear(ctx, cid, info, steps, script):
     cmp_arrays("getInterpolationWeights.pullback." + fam, "getInterpolationWeights", *pair("iw", "c", "u", "iw"), tol=1e-12 * lam)
     hb = pair("hbasis", "c", "u", "hbasis")
     cmp_arrays("evaluateHierarchicalFunctions.pullback." + fam, "evaluateHierarchicalFunctions", hb[0], hb[1], tol=1e-12)
+    # the sparse form on ONE grid at the same points: the count announced by GetNZ, the vector overload and Static must describe the same non-zeros
+    # (the buffers of Static are sized by GetNZ in the C / Python / Fortran interfaces)
+    for sl in ("c", "u"):
+        hz = obs_of(steps, "hsparsenz %s " % sl, "hsnz")
+        if hz is not None and len(hz) == 4:
+            ctx.count("sparse_counts_compared")
+            if not (hz[0] == hz[1] == hz[2] and hz[3] == 1):
+                V("evaluateSparseHierarchicalFunctions.count." + ("canonical" if sl == "c" else "transformed"),
+                  "evaluateSparseHierarchicalFunctionsGetNZ announces %d non-zeros, the vector overload returns %d, Static fills %d (same entries: %s) at the same %d points "
+                  "(rule %s, a=%s b=%s)" % (hz[0], hz[1], hz[2], bool(hz[3]), len(info.get("X", [])) // max(d, 1), spec.get("rule", ""), A, B))
     wc_, wu_ = pair("dw", "c", "u", "dw")
     if wc_ is not None and wu_ is not None and len(wc_) == len(wu_) and not illcond:
         jl = [jac1(fam, A[j], B[j]) for j in range(d)]
